@@ -35,7 +35,7 @@ use serde::{Deserialize, Serialize};
 use serde_json::json;
 use shwap_squares::*;
 
-const RULE: &str = "store: headers 1..=3 with the DAHs of harness-written squares (ODS widths quick 2,2,1 / thorough 4,2,1; layouts plain, with-share-v1, plain). \
+const RULE: &str = "store: headers 1..=3 with the DAHs of harness-written squares (ODS widths quick 2,2,1 / thorough 4,4,2; layouts plain, with-share-v1, plain). \
 containers: for every stored height every honest sample (every cell x proof axis row/col), every honest row (every index x transmitted half left/right), every honest row-namespace-data \
 (every row x namespace in {tx, each user namespace, absent-inside-range, below all, above all users, tail padding, parity} that the row root's range covers), \
 plus one mutant per class on base containers of every height (sample: share byte flipped, neighbour's share, axis flag flipped, proof start/end shifted, sibling dropped, sibling added, share missing, proof missing, \
@@ -167,7 +167,7 @@ struct Fx {
 fn fixture(ctx: &Ctx) -> Fx {
     let plan: Vec<(usize, Layout)> = ctx.tier.pick(
         vec![(2, Layout::Plain), (2, Layout::WithV1), (1, Layout::Plain)],
-        vec![(4, Layout::Plain), (2, Layout::WithV1), (1, Layout::Plain)],
+        vec![(4, Layout::Plain), (4, Layout::WithV1), (2, Layout::Plain)],
     );
     let store = Arc::new(InMemoryStore::new());
     let mut generator = ExtendedHeaderGenerator::new();
